@@ -368,6 +368,7 @@ func sweepHookOpts(prop string, keep func(o *Obligation) bool, frames bool) prop
 		c.provedLedger = loadLedger(prop, "proved")
 		c.frontierLedger = loadLedger(prop, "frontier")
 		n := 0
+		nloops := 0
 		for _, k := range c.e.sortedFuncKeys() {
 			if !inSweep(k) || c.funcs[k] {
 				continue
@@ -471,6 +472,23 @@ func sweepHookOpts(prop string, keep func(o *Obligation) bool, frames bool) prop
 				}
 			}
 			c.jobs = append(c.jobs, droppedCand...)
+			if !frames {
+				// termination of loops: a range over a finite sequence or map, a counting loop (decided on the SSA), or a
+				// `decreases` clause (obligation loop#N/decreases, discharged by the solvers)
+				for _, li := range g.loopList {
+					ok, why := true, ""
+					switch {
+					case li.spec != nil && li.spec.Decreases != nil:
+					case li.rangeIdx != nil:
+					case headerHasNext(li.header):
+					default:
+						ok, why = countingLoop(li.header, li.blocks)
+					}
+					c.direct = append(c.direct, &directResult{Name: fmt.Sprintf("%s/loop#%d/has-a-termination-argument", k, li.ord), OK: ok,
+						Detail: "the loop is neither a range over a finite sequence or map nor a counting loop towards a fixed bound (" + why + "), and its contract names no `decreases` measure"})
+					nloops++
+				}
+			}
 			c.addGenNoCover(g, func(o *Obligation) bool {
 				if frames {
 					if o.Kind == "frame" || strings.HasPrefix(o.Kind, "contract/assigns") {
@@ -528,7 +546,8 @@ func sweepHookOpts(prop string, keep func(o *Obligation) bool, frames bool) prop
 				}
 			}
 			c.extraEv["recursive_functions"] = nrec
-			c.assumed["termination: only recursion through static calls is examined; loops without a `decreases` clause and recursion through function values (closures calling themselves through a variable, callbacks of ast.Inspect) are not"] = true
+			c.extraEv["loops_with_termination_argument"] = nloops
+			c.assumed["termination: recursion through static calls and every loop of the swept packages are examined; recursion through function values (closures calling themselves through a variable, callbacks of ast.Inspect), termination of the dependencies (parsers, go/types, the rule engine) and ranges over maps that grow while they are ranged over are not"] = true
 		}
 	}
 }
@@ -599,4 +618,14 @@ func init() {
 	// C04: checkers run concurrently over one file; that they do not race rests on each of them writing only state it
 	// owns - the same frame obligations, discharged again under C04 (with their own ledger)
 	registerHook("C04", sweepHookOpts("C04", nil, true))
+}
+
+// headerHasNext: the loop is a range over a map or a string (ssa.Next in its header)
+func headerHasNext(b *ssa.BasicBlock) bool {
+	for _, ins := range b.Instrs {
+		if _, ok := ins.(*ssa.Next); ok {
+			return true
+		}
+	}
+	return false
 }
